@@ -59,7 +59,7 @@ def gen_scenario(rng):
     n = rng.choice([0, 1, 1, 2, 2, 3, 4])
     per = []
     for c in range(n):
-        acts = [("connect", c)]
+        acts = [("connect", c)] if rng.random() < 0.65 else [("open", c), ("hello", c)]
         parked = False
         for _ in range(rng.randint(0, 4)):
             x = rng.random()
@@ -150,7 +150,7 @@ class World:
             else:
                 quiet = 0
 
-    async def connect(self, c):
+    async def connect(self, c, hello=True):
         cl = Client(c)
         self.clients[c] = cl
         try:
@@ -168,11 +168,25 @@ class World:
         if self.stopped:
             # the listening socket may linger in the accept queue only if the server did not close it
             pass
-        cl.open = True
         cl.pump = asyncio.ensure_future(cl._pump())
+        cl.connected_after_stop = self.stopped
+        if not hello:
+            cl.pending_hello = True
+            self.sit["C19.deferred_handshake"] += 1
+            await self.settle()
+            return cl
+        return await self.hello(cl)
+
+    async def hello(self, cl):
+        c = cl.idx
+        cl.pending_hello = False
+        cl.open = True
+        others_pending = sum(1 for o in self.clients.values() if getattr(o, "pending_hello", False))
         cl.writer.write(json.dumps({"terminal_width": 80}).encode() + b"\n")
         await self.settle()
         got = cl.take()
+        if others_pending:
+            self.sit["C19.handshake_while_other_pending"] += 1
         self.note("connect", c, got)
         if self.stopped:
             if got:
@@ -318,7 +332,7 @@ class World:
             if kind == "end":
                 break
             if kind == "stop":
-                connected = sum(1 for c in self.clients.values() if c.open)
+                connected = sum(1 for c in self.clients.values() if c.writer is not None and not c.writer.is_closing())
                 task.cancel()
                 self.stopped = True
                 self.sit[f"C19.stop_with_clients.{min(connected, 3)}"] += 1
@@ -330,6 +344,18 @@ class World:
             c = act[1]
             if kind == "connect":
                 await self.connect(c)
+                continue
+            if kind == "open":
+                await self.connect(c, hello=False)
+                continue
+            if kind == "hello":
+                cl = self.clients.get(c)
+                if cl is not None and cl.writer is not None and getattr(cl, "pending_hello", False):
+                    if self.stopped and not cl.connected_after_stop:
+                        # connected while serving, handshake after the stop: the session may or may not still be served
+                        cl.pending_hello = False
+                        continue
+                    await self.hello(cl)
                 continue
             cl = self.clients.get(c)
             if cl is None or not cl.open or cl.parked:
@@ -369,7 +395,7 @@ class World:
                     self.violate("C19.disconnect_harmless", f"client {c} disconnecting ({act[2]}) changed the pool: {before} -> {after}")
         # everybody leaves
         for cl in self.clients.values():
-            if cl.open:
+            if cl.writer is not None and not cl.writer.is_closing():
                 await self.disconnect(cl, "close")
         if not self.stopped:
             task.cancel()
